@@ -82,8 +82,15 @@ func doCall(resp *restful.Response, name string) (err error, hasErr bool) {
 		_, err = resp.Write(payloadBytes(size))
 		return err, true
 	case "WriteHeader":
-		resp.WriteHeader(201)
+		st := 201
+		if len(parts) > 1 {
+			fmt.Sscanf(parts[1], "%d", &st) // WriteHeader:101, :204, :304 ... (final statuses with a special standing)
+		}
+		resp.WriteHeader(st)
 		return nil, false
+	case "WriteHeaderAndEntity304":
+		resp.SetRequestAccepts(restful.MIME_JSON)
+		return resp.WriteHeaderAndEntity(304, v), true
 	case "WriteEntity":
 		resp.SetRequestAccepts(restful.MIME_JSON)
 		return resp.WriteEntity(v), true
@@ -268,7 +275,8 @@ func runResp(planPath, outPath string, seed int64) {
 	}
 	cases := p.Cases
 	statusCalls := []string{"WriteHeader", "WriteEntity", "WriteEntityXml", "WriteHeaderAndEntity", "WriteEntityNil", "WriteAsXmlPretty", "WriteAsXml",
-		"WriteAsJson", "WriteJson", "WriteHeaderAndJson", "WriteHeaderAndXml", "WriteEntity406", "WriteErrorString", "WriteError", "WriteErrorNil", "WriteServiceError"}
+		"WriteAsJson", "WriteJson", "WriteHeaderAndJson", "WriteHeaderAndXml", "WriteEntity406", "WriteErrorString", "WriteError", "WriteErrorNil", "WriteServiceError",
+		"WriteHeader:101", "WriteHeader:204", "WriteHeader:304", "WriteHeader:599", "WriteHeaderAndEntity304"}
 	for i := 0; i < p.Random; i++ {
 		c := respCase{}
 		if r.Intn(4) > 0 {
